@@ -231,6 +231,23 @@ def sequences(tier, seed):
             out.append(['fc', a, b])
     for i in range(250 if tier == 'quick' else 6000):
         out.append(['fc'] + [rng.choice(SEQ_CODE) for _ in range(rng.randrange(3, 12))])
+    # directed: byte parts of one register stored at non-adjacent / swapped places and read back as a whole; a register made constant and
+    # then changed in one byte by a flag-dependent instruction (setcc on ah/bh/ch/dh), followed by a store and wider read-backs
+    SL = {'al@0': '8806', 'ah@0': '8826', 'al@1': '884601', 'ah@1': '886601', 'al@2': '884602', 'ah@2': '886602', 'ah@3': '886603', 'bl@1': '885e01', 'bh@2': '887e02',
+          'ax@0': '668906', 'ax@2': '66894602'}
+    RD = ['8b06', '8b4eff', '668b4601', '8a4602', '8b5601']
+    for a, b in itertools.permutations(sorted(SL), 2):
+        if a.split('@')[1] == b.split('@')[1]: continue
+        out.append(['fc', SL[a], SL[b], RD[(len(out)) % len(RD)]])
+    for a, b, c in [('al@0', 'ah@2', 'bl@1'), ('ah@0', 'al@1', 'bh@2'), ('al@0', 'bl@1', 'ah@2'), ('ax@0', 'ah@3', 'al@2')]:
+        out.append(['fc', SL[a], SL[b], SL[c], '8b06'])
+    CONST = ['b844332211', 'bb00ff00ff', 'b9ffffffff', 'ba00000080']
+    SETCC = ['0f94c4', '0f95c7', '0f92c5', '0f9cc6', '0f94c0', '0f95c3']          # sete ah, setne bh, setb ch, setl dh, sete al, setne bl
+    USE = ['8907', '894f04', '01d8', '89c1', '66894702']
+    for k, cst in enumerate(CONST):
+        for st in SETCC:
+            out.append(['fc', '39d8', cst, st, USE[k % len(USE)], '8b07'])
+            out.append(['fc', cst, '85d2', st])
     return out
 
 # ------------------------------------------------------------------------------------------------ rep
